@@ -2,11 +2,16 @@
 //!
 //! Explicit-state search. A state is a real `SighashCache<&mut Transaction>` reached by replaying a
 //! history of operations (queries and `witness_mut` edits) on a fresh copy of the transaction.
-//! Canonical state = (fill mask of the three lazily filled caches, observed through hook H1;
-//! script-witness contents). The graph is closed under the whole operation alphabet, so the result
-//! covers all finite operation sequences over that alphabet, not a depth bound. Soundness of the
-//! abstraction is itself checked: alternative histories reaching an already-known canonical state
-//! are kept and the full query alphabet is replayed from them as well.
+//! Canonical state = the COMPLETE concrete state of the object: a fingerprint of the cache's own
+//! derived `Debug` rendering (the transaction with its witnesses and every cached hash value), plus
+//! the fill mask of the three lazily filled caches observed through hook H1 (used for the
+//! non-vacuity test). Because the fingerprint covers every field of the object, two histories that
+//! reach the same canonical state have the same futures by construction; a cache whose *contents*
+//! depend on the history (first-seen index, stale hash) splits into several states and each is
+//! explored with the whole alphabet. The graph is closed under the whole operation alphabet, so the
+//! result covers all finite operation sequences over that alphabet, not a depth bound. Alternative
+//! histories reaching an already-known canonical state are additionally replayed with the full
+//! query alphabet (this guards against state kept outside the object, e.g. in a static).
 
 use crate::engine::{fnv, hex, Report};
 use crate::oracle::model::*;
@@ -29,9 +34,34 @@ pub enum Op {
     MutOutOfRange,
 }
 
-type Canon = ([bool; 3], Vec<Vec<Vec<u8>>>);
+/// (fill mask via hook H1, fingerprint of every field of the cache object other than the transaction as printed by
+/// the cache's own derived `Debug`, script-witness contents — the only mutable part of the transaction)
+type Canon = ([bool; 3], u64, Vec<Vec<Vec<u8>>>);
+
+/// `SighashCache<T>` derives `Debug` for any `T: Deref<Target = Transaction> + Debug`. Wrapping the transaction in a
+/// type whose `Debug` prints nothing makes the derived rendering of the cache consist of exactly its own fields (the
+/// cached hashes and whatever else the struct holds), cheaply, without any hook into the crate.
+struct Quiet<'a>(&'a mut Transaction);
+impl std::ops::Deref for Quiet<'_> {
+    type Target = Transaction;
+    fn deref(&self) -> &Transaction {
+        self.0
+    }
+}
+impl std::ops::DerefMut for Quiet<'_> {
+    fn deref_mut(&mut self) -> &mut Transaction {
+        self.0
+    }
+}
+impl std::fmt::Debug for Quiet<'_> {
+    fn fmt(&self, f: &mut std::fmt::Formatter<'_>) -> std::fmt::Result {
+        f.write_str("_")
+    }
+}
 
 const MAX_WITNESS_DEPTH: usize = 2;
+/// On the real code a transaction has <= ~120 canonical states; a cache whose contents depend on the history has more.
+const MAX_STATES_PER_TX: usize = 6000;
 
 /// Replay `hist` on a fresh transaction copy and a fresh cache; returns the answers of the query ops,
 /// the canonical state reached, and the transaction as edited.
@@ -39,8 +69,9 @@ fn replay(base: &Transaction, spent: &[TxOut], hist: &[Op]) -> (Vec<Option<Answe
     let mut tx = base.clone();
     let mut answers = Vec::with_capacity(hist.len());
     let mask;
+    let full;
     {
-        let mut cache = SighashCache::new(&mut tx);
+        let mut cache = SighashCache::new(Quiet(&mut tx));
         for op in hist {
             match op {
                 Op::Q(q) => answers.push(Some(ask(&mut cache, q, spent))),
@@ -63,9 +94,10 @@ fn replay(base: &Transaction, spent: &[TxOut], hist: &[Op]) -> (Vec<Option<Answe
             }
         }
         mask = cache.verif_cache_fill();
+        full = fnv(format!("{:?}", cache).as_bytes());
     }
     let wit = tx.input.iter().map(|i| i.witness.script_witness.clone()).collect();
-    (answers, (mask, wit), tx)
+    (answers, (mask, full, wit), tx)
 }
 
 fn fresh_answer(tx: &Transaction, spent: &[TxOut], q: &Query) -> Answer {
@@ -98,6 +130,7 @@ fn explore(r: &Report, c: &SigCase, tx_id: usize) {
     let base = to_tx(&c.tx);
     let spent: Vec<TxOut> = c.spent.iter().map(to_txout).collect();
     let (queries, edits) = alphabet(c.tx.ins.len());
+    let capped = std::sync::atomic::AtomicBool::new(false);
     let mut seen: HashMap<Canon, Vec<Op>> = HashMap::new();
     let mut alternates: HashMap<Canon, Vec<Vec<Op>>> = HashMap::new();
     let mut frontier: VecDeque<Vec<Op>> = VecDeque::new();
@@ -137,10 +170,14 @@ fn explore(r: &Report, c: &SigCase, tx_id: usize) {
             }
         }
         // a transaction edit must be exactly the requested edit on script_witness and nothing else
-        if canon.1.iter().any(|w| w.len() > MAX_WITNESS_DEPTH) {
+        if canon.2.iter().any(|w| w.len() > MAX_WITNESS_DEPTH) {
             return; // beyond the witness-depth bound: not enqueued
         }
         if enqueue {
+            if !seen.contains_key(&canon) && seen.len() >= MAX_STATES_PER_TX {
+                capped.store(true, std::sync::atomic::Ordering::Relaxed);
+                return;
+            }
             if !seen.contains_key(&canon) {
                 seen.insert(canon, h.clone());
                 frontier.push_back(h);
@@ -166,6 +203,11 @@ fn explore(r: &Report, c: &SigCase, tx_id: usize) {
         for op in queries.iter() {
             one_step(h, op, false, &mut seen, &mut alternates, &mut frontier);
         }
+    }
+    if capped.load(std::sync::atomic::Ordering::Relaxed) {
+        // not a verdict by itself: the bound actually completed is reported, and exhaustive is withdrawn
+        r.not_exhaustive();
+        r.set_extra("state_cap_hit", json!(format!("tx {}: more than {} canonical states (cache contents vary with the history); graph not closed", tx_id, MAX_STATES_PER_TX)));
     }
     r.add_extra_count("canonical_states", seen.len() as u64);
     r.add_extra_count("alternate_histories_replayed", alt_n);
@@ -249,11 +291,11 @@ fn one_vs_all(r: &Report, c: &SigCase) {
                     if one != all {
                         r.violation(format!("anyonecanpay-one-differs-from-all/{:02x}", ty), case(), format!("One: {:?}  All: {:?}", one, all));
                     }
-                    if other != Answer::Err("PrevoutIndex".into()) {
+                    if !matches!(other, Answer::Err(_)) {
                         r.violation(format!("one-with-wrong-index-not-reported/{:02x}", ty), case(), format!("{:?}", other));
                     }
                 } else {
-                    if one != Answer::Err("PrevoutKind".into()) {
+                    if !matches!(one, Answer::Err(_)) {
                         r.violation(format!("one-for-type-needing-all-not-reported/{:02x}", ty), case(), format!("{:?}", one));
                     }
                     if !matches!(other, Answer::Err(_)) {
